@@ -310,6 +310,98 @@ def dynamic_churn(args) -> Dict[str, Any]:
     return {"problems": probs, "rounds": env.rounds}
 
 
+def async_case(args) -> Dict[str, Any]:
+    """the leaver dies WHILE the manager is writing (right before the manager's k-th send call of a round): during a forward,
+    an acknowledgement + CLIENT_INFO, or the periodic ACTIVE_CLIENTS / CLIENT_INFO broadcast. No reference model: the
+    statement's own clauses are checked on what the monitor and the survivors receive."""
+    tc, role, how, k, trig = args
+    mmx.fresh_gc()
+    w = mmx.World(timecode=tc)
+    probs: List[Dict[str, Any]] = []
+    info_after_closed = 0
+    fired = False
+    try:
+        def join(slot, hid, mid, name, logger=0, subs=()):
+            c = w.client(slot, hid).connect()
+            w.settle()
+            c.send(P.mkframe(P.MT_CONNECT_V2, P.p_connect_v2(logger, 0, 0, mid, 4000 + mid, name), timecode=tc, src_mod_id=mid)
+                   + P.mkframe(P.MT_CONNECT, P.p_connect(logger, 0), timecode=tc, src_mod_id=mid))
+            w.settle()
+            for t in subs:
+                c.send(P.mkframe(P.MT_SUBSCRIBE, P.p_sub(t), timecode=tc, src_mod_id=mid))
+            w.settle()
+            return c
+
+        M = join("M", 1, 90, b"mon", subs=(P.MT_CLIENT_INFO, P.MT_CLIENT_CLOSED, P.MT_ACTIVE_CLIENTS, P.MT_FAILED_MESSAGE))
+        S = join("S", 2, 31, b"ess", subs=(T1,))
+        Pp = join("P", 3, 21, b"pee")
+        dsubs = {"infosub": (P.MT_CLIENT_INFO,), "suball": (ALL,), "logger": (ALL,), "subscribed": (T1, P.MT_ACTIVE_CLIENTS)}[role]
+        D = join("D", 4, 41, b"dee", logger=1 if role == "logger" else 0, subs=dsubs)
+        E = join("E", 5, 42, b"eee", subs=(P.MT_CLIENT_INFO,))
+        M.drain()
+        S.drain()
+        w.kill_plan = (w.mgr_sends + k, [D], how)
+        if trig == "tick":
+            w.tick(5.2)
+            w.step()
+        elif trig == "publish":
+            Pp.send(P.mkframe(T1, b"now!", timecode=tc, src_mod_id=21))
+        else:
+            Pp.send(P.mkframe(P.MT_MODULE_READY, P.P_READY.pack(9), timecode=tc, src_mod_id=21) + P.mkframe(P.MT_SUBSCRIBE, P.p_sub(1003), timecode=tc, src_mod_id=21))
+        w.settle()
+        fired = w.kill_plan is None
+        w.kill_plan = None
+        if not w.alive:
+            probs.append({"prop": "C03", "kind": "manager-died", "detail": str((w.exit or ("", ""))[1])[:200]})
+        elif fired:
+            seen = [P.normalize(f) for f in M.drain()]
+            closed = [x for x in seen if x[0] == "closed" and x[1] == 41]
+            if len(closed) != 1:
+                probs.append({"prop": "C07", "kind": "closed-count", "expected": 1, "got": [list(x) for x in seen if x[0] == "closed"]})
+            elif closed[0][2] != "dee" or closed[0][3] != (1 if role == "logger" else 0) or closed[0][5] != 4041:
+                probs.append({"prop": "C07", "kind": "closed-fields", "got": list(closed[0])})
+            if closed:
+                i = seen.index(closed[0])
+                info_after_closed = sum(1 for x in seen[i + 1:] if x[0] == "info" and x[1] == 41)
+            # the id and the name are free at once
+            D2 = w.client("D2", 6).connect()
+            w.settle()
+            D2.send(P.mkframe(P.MT_CONNECT_V2, P.p_connect_v2(0, 0, 0, 41, 4041, b"dee"), timecode=tc, src_mod_id=41))
+            w.settle()
+            if [P.normalize(f) for f in D2.drain() if P.normalize(f)[0] == "ack"] != [("ack", 41)]:
+                probs.append({"prop": "C07", "kind": "reconnect-refused", "slot": "D"})
+            # delivery among the others is unaffected: the message in flight and the next one
+            got = [P.normalize(f) for f in S.drain()]
+            want_now = 1 if trig == "publish" else 0
+            if sum(1 for x in got if x[0] == "fwd" and x[3] == b"now!") != want_now:
+                probs.append({"prop": "C07", "kind": "survivor-missed-the-message-in-flight", "got": len(got)})
+            Pp.send(P.mkframe(T1, b"next", timecode=tc, src_mod_id=21))
+            w.settle()
+            if sum(1 for f in S.drain() if f.payload == b"next") != 1:
+                probs.append({"prop": "C07", "kind": "survivor-not-served"})
+            # ... and the departed connection receives nothing any more
+            if not w.alive:
+                probs.append({"prop": "C03", "kind": "manager-died", "detail": str((w.exit or ("", ""))[1])[:200]})
+    finally:
+        w.stop()
+    return {"problems": probs, "fired": fired, "rounds": w.rounds, "info_after_closed": info_after_closed}
+
+
+def run_async_chunk(items):
+    return [async_case(a) for a in items]
+
+
+def async_cases(tier: str):
+    out = []
+    for tc in ((False,) if tier == "quick" else (False, True)):
+        for role in ("infosub", "suball", "logger", "subscribed"):
+            for how in ("rst", "fin"):
+                for trig, kmax in (("tick", 40), ("publish", 12), ("ctl", 16)):
+                    for k in range(1, kmax + 1):
+                        out.append((tc, role, how, k, trig))
+    return out
+
+
 def run_case(sc) -> List[Dict[str, Any]]:
     res = []
     k = 0
@@ -342,6 +434,9 @@ def run(tier: str) -> int:
     res = core.pmap(run_chunk, chunks)
     churn_args = [(False, False, 104), (True, True, 104)] if tier == "quick" else [(False, False, 230), (True, True, 230), (False, True, 104)]
     churn = core.pmap(dynamic_churn, churn_args)
+    acs = async_cases(tier)
+    achunks = core.chunks(acs, 24)
+    ares = core.pmap(run_async_chunk, achunks)
     core.close_pool()
     flat = [s for ch in chunks for s in ch]
     i = 0
@@ -370,6 +465,19 @@ def run(tier: str) -> int:
         rounds += r["rounds"]
         for p in r["problems"]:
             chk.violation(f"{p['prop']}:{p['kind']}:churn", f"dynamic churn {a}: {p}", {"module": "vf.checks.c07", "churn": list(a)}, size=5000)
+    fired = 0
+    for ch, rs in zip(achunks, ares):
+        for a, r in zip(ch, rs):
+            if not r["fired"]:
+                continue  # the round had fewer send calls than k: nobody died
+            fired += 1
+            execs += 1
+            rounds += r["rounds"]
+            chk.count("client_info_about_the_leaver_after_its_client_closed", r["info_after_closed"])  # an observation, not a clause of the statement
+            for p in r["problems"]:
+                chk.violation(f"{p['prop']}:{p['kind']}:async", f"death before the manager's send #{a[3]} of a {a[4]} round, leaver {a[1]}/{a[2]}: {p}",
+                              {"module": "vf.checks.c07", "async": list(a)}, size=2000 + a[3])
+    chk.count("asynchronous_deaths", fired)
     chk.sample({"label": scs[0]["label"], "leave": scs[0]["leave"]})
     chk.sample({"label": scs[-1]["label"], "leave": scs[-1]["leave"]})
     chk.assumptions += ["virtual TCP model (vf.net)", "reference hub (vf/spec.py)", "one or two leavers, one survivor, one monitor"]
@@ -384,6 +492,17 @@ def replay(case) -> int:
             print("  PROBLEM:", p)
         print("reproduced" if r["problems"] else "NOT reproduced")
         return 1 if r["problems"] else 0
+    if "async" in case:
+        a = tuple(case["async"])
+        r1, r2 = async_case(a), async_case(a)
+        if str(r1["problems"]) != str(r2["problems"]):
+            print("HARNESS-ERROR: non-deterministic replay")
+            return 2
+        print(f"  asynchronous death: leaver {a[1]} ({a[2]}) right before the manager's send call #{a[3]} of a {a[4]} round, timecode={a[0]}")
+        for p in r1["problems"]:
+            print("  PROBLEM:", p)
+        print("reproduced" if r1["problems"] else "NOT reproduced")
+        return 1 if r1["problems"] else 0
     sc, order = case["scenario"], case["order"]
     r1 = execute((sc, order))
     r2 = execute((sc, order))
